@@ -56,7 +56,10 @@ OPTION_SETS = [[], ['--skip-deduplication'],
                ['--cache'],
                # the same deck with other --lattice ranges (decks whose
                # lattices are filled homogeneously accept any ranges)
-               ['@alt-lattice']]
+               ['@alt-lattice'],
+               # both at once: two --lattice options for one cell on the same
+               # command line (whichever wins, it is the same one every time)
+               ['@both-lattice']]
 CACHE_SUFFIXES = ('.volumes.cache', '.surfaces.cache', '.mcnp.cache')
 NAME_SUFFIXES = ('.imcnp', '.i', '', '.v2.inp', '.t4')
 
@@ -115,6 +118,9 @@ class World:
     def argv(self, i, oi):
         if OPTION_SETS[oi] == ['@alt-lattice']:
             return list(self.decks[i].get('alt_argv') or self.decks[i]['argv'])
+        if OPTION_SETS[oi] == ['@both-lattice']:
+            return list(self.decks[i]['argv']) + \
+                list(self.decks[i].get('alt_argv') or [])
         return list(self.decks[i]['argv']) + OPTION_SETS[oi]
 
     def fresh_output(self, i, oi, hashseed='0'):
@@ -426,9 +432,17 @@ def make_machine(tier, sink):
             self.world.do_convert(i, oi, 'reconvert')
 
         @precondition(lambda self: len(self.pairs) > 0)
-        @rule(k=st.integers(0, 50), hs=st.sampled_from(['1', '2', 'random']))
-        def fresh_hashseed(self, k, hs):
+        @rule(k=st.integers(0, 50),
+              hs=st.sampled_from(['1', '2', '3', '4', '5', 'random']),
+              both=st.booleans())
+        def fresh_hashseed(self, k, hs, both):
             i, oi = self.pairs[k % len(self.pairs)]
+            twice = [j for j, dk in enumerate(self.world.decks)
+                     if dk.get('alt_argv')]
+            if both and twice:
+                # a command line with two --lattice options for one cell
+                i = twice[k % len(twice)]
+                oi = OPTION_SETS.index(['@both-lattice'])
             self.world.do_hashseed(i, oi, hs)
 
         @invariant()
